@@ -309,8 +309,8 @@ def generate_ggsw(ctx, rng):
         so = sa + rng.range(-1, 1)
         so = max(so, adnum * adsize, adsize + 1)
         c["kout"] = so * c["bout"]
-        # res.dnum <= a.dnum is what the entry assertion admits; ggsw_keyswitch needs equality (known finding)
-        c["rdnum"] = adnum if (op != "ggsw_auto" and k % 8 != 4) else max(1, adnum - 1)
+        # res.dnum <= a.dnum is what the entry assertion admits (ggsw_keyswitch panicked for < before poulpy 95a5a90)
+        c["rdnum"] = adnum if (op not in ("ggsw_auto", "ggsw_ks") or k % 8 == 0) else max(1, adnum - 1)
         # key and tensor key cover the result precision
         a_size = ceil_div(max(sa, so) * c["bin"], c["bkey"])
         c["dnum"] = max(1, ceil_div(a_size, c["dsize"]) + rng.range(-1, 0))
